@@ -129,6 +129,19 @@ func Mutate(kind string, a []int64, b []byte) [][]byte {
 			out = append(out, c)
 		}
 		return out
+	case "enumfliphead":
+		// every bit of the first arg(0) bytes (length prefixes of large messages)
+		n := int(arg(0, 4))
+		if n > len(b) {
+			n = len(b)
+		}
+		var out [][]byte
+		for bit := 0; bit < 8*n; bit++ {
+			c := cp()
+			c[bit/8] ^= 1 << (7 - uint(bit%8))
+			out = append(out, c)
+		}
+		return out
 	case "enumtrunc":
 		var out [][]byte
 		for k := 0; k < len(b); k++ {
@@ -242,6 +255,8 @@ func VariantLabel(kind string, a []int64, i int) string {
 		return fmt.Sprintf("flip1@%d", off%stride+i*stride)
 	case "enumtrunc":
 		return fmt.Sprintf("trunc@%d", i)
+	case "enumfliphead":
+		return fmt.Sprintf("flip1@%d", i)
 	}
 	return kind
 }
@@ -333,7 +348,7 @@ func (a *PlanAdversary) Intercept(m *simnet.Msg) []Sending {
 				continue
 			}
 			a.W.Res.FaultFired(kind, inflight)
-			enum := kind == "enumflip" || kind == "enumtrunc" || kind == "enumt5"
+			enum := kind == "enumflip" || kind == "enumtrunc" || kind == "enumt5" || kind == "enumfliphead"
 			if !enum {
 				m.Orig = m.Payload
 				m.Payload = vs[0]
